@@ -348,6 +348,19 @@ impl BufCheck {
                     if ntags_many(&per) {
                         ctx.count("several_tags_on_one_sample");
                     }
+                    // Blocks hand over the tags of their whole input window and
+                    // commit what fitted: entries beyond the committed samples
+                    // belong to no sample (never to be reported), and wherever
+                    // they sit in the list they must not affect the others.
+                    if src.chance(1, 6) {
+                        for _ in 0..src.range(1, 2) {
+                            let pos = n + src.below(4);
+                            let at = src.below(tags.len() + 1);
+                            let (k, v) = gen_tag(src, &mut serial);
+                            tags.insert(at, Tag::new(pos, k, v));
+                        }
+                        ctx.count("tag_beyond_the_commit_in_the_list");
+                    }
                     {
                         let (_, wpos, _) = ring.positions();
                         if n > 0 && wpos + n > cap {
@@ -763,7 +776,7 @@ impl Check for BufCheck {
     fn assumptions(&self) -> Vec<String> {
         vec![
             "single-threaded histories (two-thread interleavings are C03)".into(),
-            "tag positions passed to produce() are < n (documented contract)".into(),
+            "a tag whose position is >= n in produce(n, tags) belongs to no committed sample: it must never be reported, and must not affect the tags of the committed samples (blocks pass their whole input window's tags with a partial commit)".into(),
             "start offsets are set with the feature-gated verif_preroll hook on an empty buffer".into(),
         ]
     }
